@@ -1107,11 +1107,25 @@ class TLSConnection(TLSRecordLayer):
         # Get the server version.  Do this before anything else, so any
         # error alerts will use the server's version
         real_version = serverHello.server_version
-        if serverHello.server_version >= (3, 3):
-            ext = serverHello.getExtension(ExtensionType.supported_versions)
-            if ext:
-                real_version = ext.version
+        ext = serverHello.getExtension(ExtensionType.supported_versions)
+        if ext:
+            if serverHello.server_version < (3, 3) or \
+                    not ext.version > (3, 3) or \
+                    ext.version not in settings.versions or \
+                    not clientHello.getExtension(
+                        ExtensionType.supported_versions):
+                for result in self._sendError(
+                        AlertDescription.illegal_parameter,
+                        "Invalid supported_versions extension"):
+                    yield result
+            real_version = ext.version
         self.version = real_version
+        if hello_retry and real_version != hello_retry.getExtension(
+                ExtensionType.supported_versions).version:
+            for result in self._sendError(
+                    AlertDescription.illegal_parameter,
+                    "Version changed after HelloRetryRequest"):
+                yield result
 
         # Check ServerHello
         if hello_retry and \
